@@ -42,10 +42,10 @@ pub fn has_literal_line(text: &str) -> bool {
 }
 
 pub fn meta(rep: &mut Report) {
-    rep.rule = "mutation with deviation bound over a corpus of 12 small valid btor2 files that together use every line kind: delete / duplicate / swap lines; every token (id, tag, sort id, operand, parameter, symbol) deleted or replaced by every element of a hostile menu (every other id of the file and its negation, 0, -0, 1, 2^31, 2^32-1, 2^32, 2^63, 2^64, -, x, e-acute, 1✖2, every tag name incl. the unsupported ones); width 0; slice bounds reversed / out of range; array sorts over array sorts; grammar-generated ill-sorted lines (operator x every operand-kind combination x every declared sort). quick: all single mutations + the reduced ill-sorted grammar; thorough: additionally all pairs of mutations on the 6 smallest files (reduced menu) and the full ill-sorted grammar. Each text runs in a worker subprocess (address-space cap, deadline). Outcome must be None, Some(sys) with sys passing the acceptance oracle, or a panic carrying one of the reader's documented not-yet-supported markers. distinct_nontrivial = distinct texts for which the reader returned a system.".into();
+    rep.rule = "mutation with deviation bound over a corpus of 12 small valid btor2 files that together use every line kind: delete / duplicate / swap lines; every token (id, tag, sort id, operand, parameter, symbol) deleted or replaced by every element of a hostile menu (every other id of the file and its negation, 0, -0, 1, 2^31, 2^32-1, 2^32, 2^63, 2^64, -, x, e-acute, 1✖2, every tag name incl. the unsupported ones); layout (CRLF, tabs, blank lines, padding, no final newline, empty file, comment markers before/after every token, NUL bytes, 3000-fold repeated tokens); width 0; slice bounds reversed / out of range; array sorts over array sorts; grammar-generated ill-sorted lines (operator x every operand-kind combination x every declared sort). quick: all single mutations + the reduced ill-sorted grammar; thorough: additionally all pairs of mutations on the 6 smallest files (reduced menu) and the full ill-sorted grammar. Each text runs in a worker subprocess (address-space cap, deadline). Outcome must be None, Some(sys) with sys passing the acceptance oracle, or a panic carrying one of the reader's documented not-yet-supported markers. distinct_nontrivial = distinct texts for which the reader returned a system.".into();
     rep.assumptions = vec![
         "allowed panics: parse.rs todo!(\"support fairness constraints\"), todo!(\"Add support for bit rotates.\"), todo!(\"Add support for overflow operators\"), \"TODO: implement support for <op> operation\", \"unexpected unary op: inc|dec\" — only when raised in btor2/parse.rs".into(),
-        "worker limits: address-space cap 1 GiB and 10 s per text (normal run time is tens of microseconds); texts declaring a sort of >= 2^24 bits (`heavy`) get 8 GiB / 120 s in the thorough tier and run last, 4 at a time; the quick tier produces heavy texts only from the three smallest corpus files (materialising a 2^32-1-bit literal legitimately needs > 1 GiB and 10-70 s) and counts what it dropped; a deadline is reported only after the text timed out twice".into(),
+        "worker limits: address-space cap 1 GiB and 10 s per text (normal run time is tens of microseconds); texts declaring a sort of >= 2^24 bits (`heavy`) get 8 GiB / 120 s in the thorough tier and run last, 4 at a time; the quick tier produces heavy texts only from the three smallest corpus files (materialising a 2^32-1-bit literal legitimately needs > 1 GiB and 10-70 s) and counts what it dropped; a deadline on a normal text is a violation once the text timed out twice; a heavy text that exceeds its deadline is counted and listed in the evidence (`heavy_texts_over_deadline`) but is not a verdict (cost proportional to the declared width; a verdict would depend on machine load); an abort (allocation beyond the cap) is a violation for every text".into(),
         "acceptance oracle: deep reference type check of every init/next/output/bad/constraint, init/next type = state type, inputs and state symbols are symbols, every symbol used is a declared input or state, bad/constraint are 1 bit wide, and when the text is well-formed for the reference reader the sorts of inputs/states/outputs equal the declared ones".into(),
     ];
 }
@@ -266,6 +266,8 @@ static BATCH_NO: AtomicU64 = AtomicU64::new(0);
 /// texts the reference calls ill-sorted, accepted by the reader with a system that passes the
 /// acceptance oracle (C08's business; listed in the evidence for information)
 static ACCEPTED_ILLSORTED: std::sync::Mutex<Vec<String>> = std::sync::Mutex::new(vec![]);
+/// heavy texts that did not finish within the heavy deadline (listed in the evidence)
+static SLOW_HEAVY: std::sync::Mutex<Vec<String>> = std::sync::Mutex::new(vec![]);
 
 /// Run a batch of texts in worker subprocesses; a worker that dies or exceeds the deadline is
 /// replaced and the text it was working on is recorded as Abort / Deadline.
@@ -548,6 +550,44 @@ pub fn single_mutations(text: &str, reduced: bool, heavy: bool) -> Vec<Mutant> {
                 let mut l = lines.clone();
                 l[i] = t.join(" ");
                 out.push(("width", join(&l)));
+            }
+        }
+    }
+    // layout-level mutations of the whole file and of single lines
+    out.push(("format", lines.join("\r\n") + "\r\n"));
+    out.push(("format", join(&lines.iter().map(|l| l.replace(' ', "\t")).collect::<Vec<_>>())));
+    out.push(("format", lines.join("\n")));
+    out.push(("format", lines.join("\n\n") + "\n\n"));
+    out.push(("format", join(&lines.iter().map(|l| format!("  {l}  ")).collect::<Vec<_>>())));
+    out.push(("format", String::new()));
+    out.push(("format", "; only a comment\n".to_string()));
+    out.push(("format", join(&lines.iter().map(|l| format!("; {l}")).collect::<Vec<_>>())));
+    for i in 0..lines.len() {
+        let toks = split_line(&lines[i]);
+        for k in 0..toks.len() {
+            // a comment starting after / inside token k
+            let mut t = toks.clone();
+            t[k] = format!("{};", toks[k]);
+            let mut l = lines.clone();
+            l[i] = t.join(" ");
+            out.push(("format", join(&l)));
+            let mut t = toks.clone();
+            t[k] = format!(";{}", toks[k]);
+            let mut l = lines.clone();
+            l[i] = t.join(" ");
+            out.push(("format", join(&l)));
+            // a NUL byte and a very long token
+            let mut t = toks.clone();
+            t[k] = format!("{}\0", toks[k]);
+            let mut l = lines.clone();
+            l[i] = t.join(" ");
+            out.push(("format", join(&l)));
+            if !reduced {
+                let mut t = toks.clone();
+                t[k] = toks[k].repeat(3000);
+                let mut l = lines.clone();
+                l[i] = t.join(" ");
+                out.push(("format", join(&l)));
             }
         }
     }
@@ -942,6 +982,10 @@ fn process(texts: &[(&'static str, String)], base_order: u64, rep: &Report, budg
                 let ts: Vec<String> = ch.iter().map(|x| x.1.1.clone()).collect();
                 let mut rs = run_batch(&ts);
                 for (r, t) in rs.iter_mut().zip(ts.iter()) {
+                    if r.kind == Kind::Deadline && is_heavy(t) {
+                        // cost proportional to a declared width of >= 2^24 bits: counted, not a verdict
+                        continue;
+                    }
                     if r.kind == Kind::Deadline {
                         // confirm: the same text alone must time out again
                         let again = run_single(t);
@@ -992,6 +1036,14 @@ fn process(texts: &[(&'static str, String)], base_order: u64, rep: &Report, budg
                         }
                     }
                     Kind::Abort => *counts.entry("outcome:abort".into()).or_insert(0) += 1,
+                    Kind::Deadline if is_heavy(text) => {
+                        *counts.entry("outcome:deadline-on-heavy-text(not-a-verdict)".into()).or_insert(0) += 1;
+                        let mut g = SLOW_HEAVY.lock().unwrap();
+                        if g.len() < 40 {
+                            g.push(text.clone());
+                        }
+                        continue;
+                    }
                     Kind::Deadline => *counts.entry("outcome:deadline".into()).or_insert(0) += 1,
                 }
                 if let Some(ps) = presig(text, r) {
@@ -1087,7 +1139,7 @@ pub fn run(opts: &Opts, rep: &Report) {
     rep.add("quick-tier-dropped-heavy-texts", dropped_heavy);
     {
         let classes: BTreeSet<&str> = singles.iter().map(|m| m.0).collect();
-        for c in ["delete-line", "duplicate-line", "swap-lines", "delete-token", "replace-token", "slice-bounds", "ext-amount", "width", "array-of-array"] {
+        for c in ["delete-line", "duplicate-line", "swap-lines", "delete-token", "replace-token", "slice-bounds", "ext-amount", "width", "array-of-array", "format"] {
             if !classes.contains(c) {
                 machinery_failure(&format!("C18 mutation class {c} produced nothing"));
             }
@@ -1117,7 +1169,10 @@ pub fn run(opts: &Opts, rep: &Report) {
     if let Some(hv) = heavy_later.take() {
         // de-duplicate (pairs repeat many heavy texts), keep the smallest order
         let mut seen: BTreeSet<u64> = BTreeSet::new();
-        let hv: Vec<(u64, &'static str, String)> = hv.into_iter().filter(|h| seen.insert(hash64(&h.2))).collect();
+        let mut hv: Vec<(u64, &'static str, String)> = hv.into_iter().filter(|h| seen.insert(hash64(&h.2))).collect();
+        // cheapest first: texts without constant lines, then by number of constant lines
+        let lit_lines = |t: &str| t.lines().filter(|l| has_literal_line(l)).count();
+        hv.sort_by_key(|h| (lit_lines(&h.2), h.0));
         n_heavy = hv.len();
         let mut none: Option<Vec<(u64, &'static str, String)>> = None;
         // the heavy stage may use at most 40% of the whole budget
@@ -1155,6 +1210,7 @@ pub fn run(opts: &Opts, rep: &Report) {
     }
     rep.note("stages", json!({"corpus": corpus.len(), "single": n_single, "grammar": n_grammar, "pairs": n_pairs, "heavy": n_heavy}));
     rep.note("accepted_illsorted_examples", json!(ACCEPTED_ILLSORTED.lock().unwrap().clone()));
+    rep.note("heavy_texts_over_deadline", json!(SLOW_HEAVY.lock().unwrap().clone()));
     let t_enum = rep.elapsed();
     flush(pending, rep);
     rep.note("wall_split_s", json!({"enumeration": t_enum, "shrinking": rep.elapsed() - t_enum}));
